@@ -343,6 +343,36 @@ def audit_outputs(case_id, iso, opts, tin, out, tr, after=None):
     if tr.herds and tr.herds[0][0]["grass"] is not None:
         ck.series("grass", tr.herds[0][0]["grass"], ref_grass(inp, N), N, data)
         n += 1
+    # the fat and protein components of the same series: each is the calorie series times the documented nutrient content
+    annual = inp["BASELINE_CROP_KCALS"] * (1 - 92.0 / 3898.0) * 4e6 / 1e9
+    crop_fat = (inp["BASELINE_CROP_FAT"] / 1e3) / annual if annual else 0.0
+    crop_pro = (inp["BASELINE_CROP_PROTEIN"] / 1e3) / annual if annual else 0.0
+    rot = inp["ROTATION_IMPROVEMENTS"] if reloc else {"FAT_RATIO": 1.0, "PROTEIN_RATIO": 1.0}
+    fish_k = inp["FISH_DRY_CALORIC_ANNUAL"] * 4e6 / 1e9
+    nutr = [("outdoor_crops", tc["outdoor_crops"].production, crop_fat, crop_pro),
+            ("greenhouse_crops", tc["greenhouse_crops"], crop_fat * rot["FAT_RATIO"], crop_pro * rot["PROTEIN_RATIO"]),
+            ("methane_scp", tc["methane_scp"], 1e9 / 5350.0 * 0.09 / 1e6, 1e9 / 5350.0 * 0.65 / 1e6),
+            ("cellulosic_sugar", tc["cellulosic_sugar"], 0.0, 0.0)]
+    if fish_k > 0:
+        nutr.append(("fish", tc["fish"].to_humans, inp["FISH_FAT_TONS_ANNUAL"] / 1e3 / fish_k, inp["FISH_PROTEIN_TONS_ANNUAL"] / 1e3 / fish_k))
+    if co["ADD_STORED_FOOD"]:
+        nutr.append(("stored_food", co["stored_food"].initial_available, crop_fat, crop_pro))
+    for name, food, ff, fp in nutr:
+        k = np.atleast_1d(np.asarray(food.kcals, float))
+        for nm, comp, frac in (("fat", food.fat, ff), ("protein", food.protein, fp)):
+            got = np.atleast_1d(np.asarray(comp, float))
+            want = k * frac
+            n += 1
+            if got.shape != want.shape or not np.isfinite(got).all():
+                ck.bad("nutrient_series_malformed", "%s %s: %d values for %d calorie values, or not finite" % (name, nm, got.size, want.size), series=name, nutrient=nm, **data)
+                continue
+            sc = max(1e-300, float(np.abs(want).max()), float(np.abs(got).max()))
+            d = float(np.abs(got - want).max()) / sc
+            ck.maxres[name + "_" + nm] = max(ck.maxres.get(name + "_" + nm, 0.0), d)
+            if d > REL and sc > 1e-12:
+                m = int(np.abs(got - want).argmax())
+                ck.bad("nutrient_content_differs_from_documented_ratio", "%s %s month %d: %.10g, calories %.10g x documented content %.8g = %.10g" % (name, nm, m, got[m], k[m], frac, want[m]),
+                       series=name, nutrient=nm, **data)
     if len(tc["milk_kcals"]) != N or len(tc["each_month_meat_slaughtered"].kcals) != N:
         ck.bad("series_wrong_length", "milk/meat series length", series="milk_meat", **data)
     return {"viol": ck.viol, "obs": {"first_round": True, "iso": iso, "N": N, "audited": n, "maxres": ck.maxres,
